@@ -389,6 +389,8 @@ aggregate_report contains violation if {
 
 type env struct {
 	rulesDir string
+	mu       sync.Mutex
+	collects map[string]collected
 }
 
 func setupEnv(wd string) *env {
@@ -398,7 +400,7 @@ func setupEnv(wd string) *env {
 	}
 	must(os.WriteFile(filepath.Join(d, "no_foo_rule.rego"), []byte(customReportRule), 0o644))
 	must(os.WriteFile(filepath.Join(d, "dup_rule.rego"), []byte(customAggRule), 0o644))
-	return &env{rulesDir: filepath.Join(wd, "rules")}
+	return &env{rulesDir: filepath.Join(wd, "rules"), collects: map[string]collected{}}
 }
 
 func must(err error) {
@@ -456,7 +458,9 @@ func sortViols(vs []Viol) {
 	})
 }
 
-func violKey(v Viol) string { return fmt.Sprintf("%s|%s|%s|%d|%d", v.File, v.Cat, v.Title, v.Row, v.Col) }
+func violKey(v Viol) string {
+	return fmt.Sprintf("%s|%s|%s|%d|%d", v.File, v.Cat, v.Title, v.Row, v.Col)
+}
 
 func sameViols(a, b []Viol) bool {
 	if len(a) != len(b) {
@@ -996,25 +1000,26 @@ func defuseAll(fs map[string]string) map[string]string {
 }
 
 type AggCase struct {
-	Kind     string               `json:"kind"` // "agg"
-	WS       string               `json:"ws"`
-	Files    map[string]string    `json:"files"`
-	Mode     string               `json:"mode"` // oneshot | twophase-nodirs | twophase-dirs
-	Target   *Viol                `json:"target,omitempty"`
-	Place    string               `json:"place,omitempty"`
-	Spell    string               `json:"spell,omitempty"`
-	Dir      string               `json:"dir,omitempty"`
-	Names    []string             `json:"names,omitempty"`
-	Comments map[string][]Comment `json:"comments"`
-	Raw      []Viol               `json:"raw"` // aggregate violations of the defused workspace (same mode)
-	Obs      []Viol               `json:"obs"`
-	Before   []Viol               `json:"before,omitempty"`     // one-shot aggregate violations before the edit
-	RawBase  []Viol               `json:"raw_before,omitempty"` // ... of the defused workspace before the edit
-	HShift   bool                 `json:"h_shift"`
-	PredOK   bool                 `json:"pred_ok"`
-	OwnAbove bool                 `json:"own_above"`
-	Skip     string               `json:"skip,omitempty"`
-	Err      string               `json:"err,omitempty"`
+	Kind      string               `json:"kind"` // "agg"
+	WS        string               `json:"ws"`
+	Files     map[string]string    `json:"files"`
+	Mode      string               `json:"mode"` // oneshot | twophase-nodirs | twophase-dirs
+	Target    *Viol                `json:"target,omitempty"`
+	Place     string               `json:"place,omitempty"`
+	Spell     string               `json:"spell,omitempty"`
+	Dir       string               `json:"dir,omitempty"`
+	Names     []string             `json:"names,omitempty"`
+	Comments  map[string][]Comment `json:"comments"`
+	Raw       []Viol               `json:"raw"` // aggregate violations of the defused workspace (same mode)
+	Obs       []Viol               `json:"obs"`
+	Before    []Viol               `json:"before,omitempty"`     // one-shot aggregate violations before the edit
+	RawBase   []Viol               `json:"raw_before,omitempty"` // ... of the defused workspace before the edit
+	HShift    bool                 `json:"h_shift"`
+	PredOK    bool                 `json:"pred_ok"`
+	OwnAbove  bool                 `json:"own_above"`
+	RawShared bool                 `json:"raw_shared"` // quick tier: raw taken from the run of another spelling at the same place
+	Skip      string               `json:"skip,omitempty"`
+	Err       string               `json:"err,omitempty"`
 }
 
 func (e *env) oneShot(files map[string]string) ([]Viol, rules.Input, error) {
@@ -1029,6 +1034,35 @@ func (e *env) oneShot(files map[string]string) ([]Viol, rules.Input, error) {
 	return violsOf(rep, func(s string) string { return s }, true), in, nil
 }
 
+type collected struct {
+	aggs map[string][]report.Aggregate
+	dirs map[string]map[string][]string
+	err  error
+}
+
+// collect: one file linted on its own with the collect query, aggregates (and directives) exported.
+// Memoised by name and content: an edit of one file re-collects only that file, as an incremental client does.
+func (e *env) collect(name, text string) collected {
+	key := name + "\x00" + text
+	e.mu.Lock()
+	c, ok := e.collects[key]
+	e.mu.Unlock()
+	if ok {
+		return c
+	}
+	in, err := rules.InputFromMap(map[string]string{name: text}, nil)
+	if err == nil {
+		var rep report.Report
+		rep, err = e.aggLinter().WithCollectQuery(true).WithExportAggregates(true).WithInputModules(&in).Lint(context.Background())
+		c = collected{aggs: rep.Aggregates, dirs: rep.IgnoreDirectives}
+	}
+	c.err = err
+	e.mu.Lock()
+	e.collects[key] = c
+	e.mu.Unlock()
+	return c
+}
+
 // twoPhase: collect every file on its own, merge, report. withDirs: hand the exported directives on.
 func (e *env) twoPhase(files map[string]string, withDirs bool) ([]Viol, error) {
 	merged := map[string][]report.Aggregate{}
@@ -1039,18 +1073,14 @@ func (e *env) twoPhase(files map[string]string, withDirs bool) ([]Viol, error) {
 	}
 	sort.Strings(names)
 	for _, n := range names {
-		in, err := rules.InputFromMap(map[string]string{n: files[n]}, nil)
-		if err != nil {
-			return nil, err
+		c := e.collect(n, files[n])
+		if c.err != nil {
+			return nil, c.err
 		}
-		rep, err := e.aggLinter().WithCollectQuery(true).WithExportAggregates(true).WithInputModules(&in).Lint(context.Background())
-		if err != nil {
-			return nil, err
-		}
-		for k, a := range rep.Aggregates {
+		for k, a := range c.aggs {
 			merged[k] = append(merged[k], a...)
 		}
-		for f, d := range rep.IgnoreDirectives {
+		for f, d := range c.dirs {
 			dirs[f] = d
 		}
 	}
@@ -1086,10 +1116,29 @@ func ownDirRows(lines []string) map[int]bool {
 	return out
 }
 
-func e2eAggregate(e *env, r *hutil.Rng, out *hutil.Out, wss []workspace, maxTargets int) {
+func e2eAggregate(e *env, r *hutil.Rng, out *hutil.Out, wss []workspace, maxTargets int, shareRaw bool) {
 	type job struct {
-		c     *AggCase
-		files map[string]string
+		c      *AggCase
+		files  map[string]string
+		rawKey string // jobs with the same key differ only in the words after the (defused) marker
+	}
+	type rawRes struct {
+		once sync.Once
+		vs   []Viol
+		err  error
+	}
+	var rawMu sync.Mutex
+	raws := map[string]*rawRes{}
+	rawOf := func(key string, files map[string]string) ([]Viol, error) {
+		rawMu.Lock()
+		rr, ok := raws[key]
+		if !ok {
+			rr = &rawRes{}
+			raws[key] = rr
+		}
+		rawMu.Unlock()
+		rr.once.Do(func() { rr.vs, _, rr.err = e.oneShot(defuseAll(files)) })
+		return rr.vs, rr.err
 	}
 	var jobs []job
 	for _, w := range wss {
@@ -1105,7 +1154,7 @@ func e2eAggregate(e *env, r *hutil.Rng, out *hutil.Out, wss []workspace, maxTarg
 		comments := allComments(in)
 		// the unedited workspace in the three modes
 		for _, mode := range []string{"oneshot", "twophase-nodirs", "twophase-dirs"} {
-			jobs = append(jobs, job{&AggCase{Kind: "agg", WS: w.Name, Files: texts, Mode: mode, Comments: comments}, texts})
+			jobs = append(jobs, job{&AggCase{Kind: "agg", WS: w.Name, Files: texts, Mode: mode, Comments: comments}, texts, w.Name})
 		}
 		seen := map[string]bool{}
 		var targets []Viol
@@ -1160,7 +1209,12 @@ func e2eAggregate(e *env, r *hutil.Rng, out *hutil.Out, wss []workspace, maxTarg
 						fs[tv.File] = strings.Join(lines, "\n") + "\n"
 						c.Files = fs
 						c.OwnAbove = pl != "same" && ownDirRows(w.Files[tv.File])[editRow(pl, tv.Row)-1]
-						jobs = append(jobs, job{c, fs})
+						key := fmt.Sprintf("%s|%s|%d|%s", w.Name, tv.File, tv.Row, pl)
+						if !shareRaw {
+							key += "|" + sp.Name
+						}
+						c.RawShared = shareRaw
+						jobs = append(jobs, job{c, fs, key})
 					}
 				}
 			}
@@ -1184,17 +1238,15 @@ func e2eAggregate(e *env, r *hutil.Rng, out *hutil.Out, wss []workspace, maxTarg
 			switch c.Mode {
 			case "oneshot":
 				c.Obs, in, err = e.oneShot(j.files)
-				if err == nil {
-					c.Raw, _, err = e.oneShot(defuseAll(j.files))
-				}
 			default:
 				in, err = rules.InputFromMap(j.files, nil)
 				if err == nil {
 					c.Obs, err = e.twoPhase(j.files, c.Mode == "twophase-dirs")
 				}
-				if err == nil {
-					c.Raw, err = e.twoPhase(defuseAll(j.files), c.Mode == "twophase-dirs")
-				}
+			}
+			if err == nil {
+				// the raw aggregate violations: one-shot run of the workspace with every marker defused
+				c.Raw, err = rawOf(j.rawKey, j.files)
 			}
 			if err != nil {
 				c.Err = err.Error()
@@ -1244,7 +1296,7 @@ func main() {
 		return
 	}
 
-	nHelper, nMods, maxT, nGenWs, maxAggT := 300, 4, 5, 1, 4
+	nHelper, nMods, maxT, nGenWs, maxAggT := 400, 6, 8, 1, 3
 	if tier == "thorough" {
 		nHelper, nMods, maxT, nGenWs, maxAggT = 3000, 40, 12, 12, 10
 	}
@@ -1267,7 +1319,7 @@ func main() {
 	for i := 0; i < nGenWs; i++ {
 		wss = append(wss, genWorkspace(r, i))
 	}
-	e2eAggregate(e, r, out, wss, maxAggT)
+	e2eAggregate(e, r, out, wss, maxAggT, tier != "thorough")
 	lap("aggregate e2e")
 }
 
@@ -1373,7 +1425,7 @@ func replay(e *env, o *opa, out *hutil.Out, path string) {
 			must(err)
 			c.Obs, err = e.twoPhase(c.Files, c.Mode == "twophase-dirs")
 			must(err)
-			c.Raw, err = e.twoPhase(defuseAll(c.Files), c.Mode == "twophase-dirs")
+			c.Raw, _, err = e.oneShot(defuseAll(c.Files))
 			must(err)
 		}
 		c.Comments = allComments(in)
